@@ -15,7 +15,7 @@ from vlib.values import teq, UserError, InterruptLike
 
 PROPERTY = 'C09'
 LEVEL = 'exploration'
-RULE = ('histories on one recorder drawn from 16 run kinds {success, raises, interrupted, interrupted inside an intercepted body, discarded, sampled out, forced, '
+RULE = ('histories on one recorder drawn from 17 run kinds {success, raises, interrupted, interrupted inside an intercepted body, discarded, sampled out, forced, '
         'data-handler fault, key fault, save fails, kill switch flipped mid-operation and released afterwards, replay ok, replay of a missing id, replay hitting a missing key, replay whose playback function raises / is '
         'interrupted}: all length-2 histories x 3 probes exhaustively, then seeded random histories of length 1-8, on memory/file/S3 cassettes; after every '
         'element the idle predicates are evaluated; the probe (record with repeated output aliases | replay | another invocation of a rate-0 class used in the history) is compared with the same probe on a fresh recorder. '
@@ -24,7 +24,7 @@ ASSUMPTIONS = ['ids, durations and timestamps are excluded from the comparison w
                'internal anchors _invoke_counter / _currently_in_interception are read only if they exist (otherwise the behavioural probe alone decides)']
 
 KINDS = ['success', 'raises', 'interrupt', 'interrupt_in_body', 'discarded', 'sampled_out', 'forced', 'handler_fault', 'key_fault', 'save_fails', 'kill_switch',
-         'replay_ok', 'replay_missing_id', 'replay_missing_key', 'replay_fn_raises', 'replay_fn_interrupted']
+         'replay_ok', 'replay_missing_id', 'replay_missing_key', 'replay_fn_raises', 'replay_fn_interrupted', 'replay_imported']
 
 
 def hist_program(seed):
@@ -128,6 +128,10 @@ def do_element(ctx, sess, kind, seed, w):
         saves = [e for e in res.spy_events if e[0] == 'save']
         if saves and not any(e[0] == 'save_failed' for e in res.spy_events) and kind in ('success', 'raises', 'forced'):
             sess.saved.append((saves[0][2], prog, faults))
+        return
+    if kind == 'replay_imported':
+        from vlib.history import replay_imported
+        replay_imported(rec)
         return
     # replays
     if not sess.saved:
